@@ -8,6 +8,11 @@ CHECKS = {
    text="Every (n,k) up to a bound is executed against the real fold / iter_fold / cross_validate code with identity-tagged rows; an independent index-arithmetic oracle decides partition, attachment, restoration, mean-of-folds score and error surfacing on each execution. Exploration: exhaustive in the enumerated (n,k,shape) scope, sampled beyond it.",
    note="Trusts the harness oracle (index arithmetic, mock Fit/Predict types), rustc and ndarray. Row identity is carried by f64 tags; other element types share the generic code.",
    ref="DESIGN.md §5 C01"),
+ "C13": dict(
+   technique="runtime monitor: KKT/dual-feasibility oracle recomputed in f64 from the published alpha, rho and the harness's own kernel functions over random SVM fits (5 problem kinds x 3 kernels x shrinking on/off x f32/f64), decision-value/label/Platt/nsupport consistency on fresh points",
+   text="Each generated fit of the real SMO solver is judged by an independent oracle: box and equality constraints, KKT conditions per coefficient class up to the configured solver eps (scaled by the recovered margin r for nu-SVC), decision value = sum alpha_i K(x_i,x) - rho with the harness's kernel, labels = sign, Platt output monotone in [0,1], nsupport recounted. Exploration over randomised datasets and the configuration grid; nothing is proved.",
+   note="Trusts the harness's f64 kernel/KKT arithmetic, rustc, ndarray. Tolerance = solver eps (+ noise floor 1024*eps_F*n*(sum|alpha K|+|rho|+1)); degenerate nu-SVC fits (margin r<=0) and fits that stop on the iteration cap are inconclusive. nu-SVR's missing nu constraint is a recorded known finding.",
+   ref="DESIGN.md §5 C13"),
 }
 
 NOT_YET = {}
